@@ -127,7 +127,7 @@ def jobs(prop, tier):
             return [SE(c + "_edge", 2, rate=(0.1 if c == "sync_entry_pre" else 1.0)) for c in ent] + [SE("sync_sc_edge", 2, rate=0.05), SE("sync_3_edge", 3, rate=0.002),
                                                                                                         # entries whose requests or answers are repeated, lost or late
                                                                                                         SE("sync_faults_sc_edge", 2, rate=0.004),
-                                                                                                        dict(race, args=["-entry", "60", "-seed", "{seed}"])]
+                                                                                                        dict(race, args=["-entry", "120", "-seed", "{seed}"])]
         return [SM(c) for c in ent] + [SE(c + "_edge", 2) for c in ent] + [SE("sync_sc_edge", 2, rate=0.5), SE("sync_3_edge", 3, rate=0.03),
                                                                          SE("sync_basic_edge", 2, rate=0.3), SE("sync_faults_sc_edge", 2, rate=0.05),
                                                                          dict(race, args=["-entry", "1500", "-seed", "{seed}"])]
@@ -135,14 +135,20 @@ def jobs(prop, tier):
         return [dict(mode="edge", cfg="codec", kind="codec", n=0, rate=1.0, tool="codeccheck", dump_module="OrdaCodec.tla", prefix="CODEC")]
     if prop == "C12":
         tr = dict(mode="trace", cfg="sync_trace", module="OrdaSyncTrace.tla", tool="concdriver", kind="counter")
+        # first contact: simultaneous first requests for a key (and a lock name) the server has never seen
+        first = dict(mode="trace", cfg="sync_trace_soc", module="OrdaSyncTrace.tla", tool="concdriver", kind="counter",
+                     why="simultaneous first requests for a new key equal no one-at-a-time order of the requests")
         if q:
-            return [dict(tr, args=["-rounds", "60", "-seed", "{seed}"])]
-        return [dict(tr, args=["-rounds", "1500", "-seed", "{seed}"]), dict(tr, args=["-rounds", "1500", "-seed", "{seed}7"])]
+            return [dict(tr, args=["-rounds", "60", "-seed", "{seed}"]), dict(first, args=["-entry", "120", "-seed", "{seed}"])]
+        return [dict(tr, args=["-rounds", "1500", "-seed", "{seed}"]), dict(tr, args=["-rounds", "1500", "-seed", "{seed}7"]),
+                dict(first, args=["-entry", "1500", "-seed", "{seed}"])]
     if prop == "C20":
         def G(cfg, kinds, rate=1.0):
             return dict(mode="edge", cfg=cfg, kind=kinds, n=2, rate=rate, tool="gatereplay", dump_module="OrdaTxLockDump.tla")
         base = [G("txlock_2op_final", "1:op,2:op"), G("txlock_optx_final", "1:op,2:tx"), G("txlock_3_final", "1:op,2:tx,3:remote"),
-                G("txlock_fail_final", "1:op,2:txfail"), G("txlock_fail3_final", "1:op,2:txfail,3:tx;txlen=1")]
+                G("txlock_fail_final", "1:op,2:txfail"), G("txlock_fail3_final", "1:op,2:txfail,3:tx;txlen=1"),
+                # every complete schedule (the history is part of the state there), not one path per state
+                G("txlock_optx_paths", "1:op,2:tx"), G("txlock_fail_paths", "1:op,2:txfail")]
         free = dict(mode="go", cfg="free-running goroutines", kind="counter", tool="gatereplay", args=["-stress", "3000" if q else "200000", "-seed", "{seed}"])
         if q:
             return base + [free]
@@ -264,7 +270,10 @@ def run_go_job(job, prop, tier, seed, scratch, ev, rec, ROOT, ENV, tlc, tlc_stat
     cmd = [os.path.join(ROOT, "bin", job["tool"])] + [a.replace("{seed}", str(seed)) for a in job["args"]]
     errf = os.path.join(scratch, "go.stderr")
     with open(errf, "w") as ef:
-        p = subprocess.run(cmd, stdout=subprocess.PIPE, stderr=ef, text=True, timeout=job.get("timeout", 1200), env=dict(ENV, VERIF_STDERR="1"))
+        try:
+            p = subprocess.run(cmd, stdout=subprocess.PIPE, stderr=ef, text=True, timeout=job.get("timeout", 1200), env=dict(ENV, VERIF_STDERR="1"))
+        except subprocess.TimeoutExpired:
+            raise Infra("%s did not finish within its time limit" % os.path.basename(cmd[0]))
     if p.returncode not in (0, 1):
         pl = None
         for line in open(errf, errors="replace"):
